@@ -494,7 +494,7 @@ def build(P):
             if r.exit != 0: msgs.append("the session ended with exit status %d" % r.exit)
         return msgs
 
-    C12 = dict(cases=c12_cases, oracle=c12_oracle, nontrivial=lambda c, r, m: c.mode == "repl",
+    C12 = dict(cases=c12_cases, builds_quick=["normal", "san"], oracle=c12_oracle, nontrivial=lambda c, r, m: c.mode == "repl",
                rule="generated programs split into REPL entries (block constructs closed by a blank line) and compared with their file-mode run on the real interpreter, the same with "
                     "failing entries interleaved; random short histories over a 16-statement alphabet with state probes; establish / fail / probe sessions for every error kind "
                     "(syntax, undefined name, type mismatch, redeclaration, constant assignment, index out of bounds, file-state error, failing first assignment) against the session "
